@@ -41,7 +41,7 @@ BASES = {'AIG': ['LNOT', 'AND', 'OR', 'NAND', 'NOR', 'GT', 'LT', 'GEQ', 'LEQ'],
 
 
 def shards(tier, seed):
-    per = 40 if tier == 'quick' else 400
+    per = 40 if tier == 'quick' else 3000
     budget = 55 if tier == 'quick' else 570
     return [{'kind': 'random', 'count': per, 'budget_s': budget} for _ in range(16)]
 
